@@ -8,7 +8,7 @@
 (*     it evaluates on the way (src/lib.rs, src/drain.rs).                 *)
 (* Obligations, decided by Apalache (SMT) as ONE inductive step            *)
 (*   apalache-mc check --init=IndInit --inv=Inv --length=1 Shape.tla       *)
-(* for all capacities up to usize::MAX at once:                            *)
+(* for all capacities up to usize::MAX at once (17 operations):                            *)
 (*   (i)   IndInv /\ Op => IndInv'   (size <= n, n > 0 => start < n);      *)
 (*   (ii)  no machine subtraction goes below 0, no addition above MaxU     *)
 (*         (except inside overflowing_add), add_mod preconditions hold at  *)
@@ -195,6 +195,26 @@ Step(o) ==
                              /\ FillOK(h0, k0, rem0) /\ FillOK(h1, k1, r1) /\ FillOK(h2, k2, r2)
                              /\ r3 = 0                                   \* the loop runs at most three times
                              /\ bs - (b - a) >= 0)
+         [] o = "range" ->           \* Iter::over_range(a..b): the two slices, advance_front_by(a), advance_back_by(len - b)
+              /\ Keep
+              /\ IF ~(a < b /\ b <= size) \/ n = 0 THEN ok' = TRUE
+                 ELSE LET r0 == IF start < AM(start, size, n) THEN size ELSE n - start      \* |right|, |left| of as_slices
+                          l0 == size - r0
+                          r1 == IF r0 > a THEN r0 - a ELSE 0                                \* advance_front_by(a)
+                          l1 == IF r0 > a THEN l0 ELSE l0 - (a - r0)
+                          cb == size - b                                                    \* advance_back_by(len - b)
+                          l2 == IF l1 > cb THEN l1 - cb ELSE 0
+                          r2 == IF l1 > cb THEN r1 ELSE r1 - (cb - l1) IN
+                      ok' = (/\ SlicesOK(start, size) /\ r0 >= 0 /\ l0 >= 0
+                             /\ (r0 > a \/ (a - r0 >= 0 /\ a - r0 <= l0))                 \* take_left <= left.len()
+                             /\ cb >= 0
+                             /\ (l1 > cb \/ (cb - l1 >= 0 /\ r1 - (cb - l1) >= 0))         \* take_right does not underflow
+                             /\ r2 + l2 = b - a)                                            \* exactly the selected elements remain
+         [] o = "swap_remove" ->     \* swap(i, size - 1) + pop_back,  swap(i, 0) + pop_front
+              /\ Keep
+              /\ ok' = (i >= size \/ n = 0 \/
+                        (/\ size - 1 >= 0 /\ PreAM(start, i, n) /\ PreAM(start, size - 1, n) /\ PreAM(start, 0, n)
+                         /\ Idx(AM(start, i, n)) /\ Idx(AM(start, size - 1, n)) /\ Idx(AM(start, 0, n)) /\ PreAM(start, 1, n)))
          [] o = "read" ->            \* io::Read: count <= len copied, then truncate_front(len - count)
               IF n = 0 \/ i > size \/ i = 0 THEN Keep /\ ok' = TRUE
               ELSE /\ start' = AM(start, i, n) /\ size' = size - i
@@ -202,7 +222,7 @@ Step(o) ==
          [] OTHER -> Keep /\ ok' = TRUE
 
 Ops == {"push_back", "push_front", "pop_back", "pop_front", "get", "nth_back", "swap", "remove", "truncate_back",
-        "truncate_front", "as_slices", "make_contiguous", "extend_from_slice", "drain", "read"}
+        "truncate_front", "as_slices", "make_contiguous", "extend_from_slice", "drain", "read", "range", "swap_remove"}
 
 \* any state satisfying the inductive invariant, any arguments
 IndInit ==
